@@ -321,6 +321,9 @@ func (g *boxGen) applyPools(s *boxStore, crs []metallbv1beta1.IPAddressPool) {
 		if cur != nil && reflect.DeepEqual(cur.Spec, crs[i].Spec) && reflect.DeepEqual(cur.Labels, crs[i].Labels) {
 			continue
 		}
+		if cur != nil {
+			crs[i].Status = cur.Status // a spec update leaves the status sub-resource alone
+		}
 		s.Put(&crs[i])
 	}
 }
